@@ -28,6 +28,8 @@ type workloadOpts struct {
 	// Solo: run only this thread (isolation reference run); -1 = all.
 	Solo    int
 	UseSolo bool
+	ErrOnly bool // injected faults are errors only, no panics
+	Xattr   bool // include xattr sub-protocol requests
 }
 
 type fidState struct {
@@ -49,6 +51,11 @@ type thread struct {
 }
 
 var wlNames = []string{"a", "b", "c", "d"}
+
+const (
+	kindXattr  = -3
+	kindXattrW = -4
+)
 
 func (t *thread) fid(i int) uint32 { return t.base + uint32(i) }
 
@@ -97,6 +104,12 @@ func (t *thread) genOp(o workloadOpts) (rc.Message, func(rep rc.Message)) {
 	}
 	unbind := func(rc.Message) { *f = fidState{} }
 	isDir := f.kind == int(simfs.Dir)
+	if f.kind == kindXattrW {
+		if ch(2) == 0 {
+			return &rc.Twrite{Fid: fid, Offset: 0, Data: []byte("ab")[:ch(3)]}, nil
+		}
+		return &rc.Tclunk{Fid: fid}, unbind
+	}
 	// weights
 	type cand struct {
 		w int
@@ -104,8 +117,36 @@ func (t *thread) genOp(o workloadOpts) (rc.Message, func(rep rc.Message)) {
 	}
 	var cs []cand
 	add := func(w int, fn func() (rc.Message, func(rc.Message))) { cs = append(cs, cand{w, fn}) }
+	if f.kind == kindXattr {
+		// xattr fid: read it or clunk it
+		if ch(2) == 0 {
+			return &rc.Tread{Fid: fid, Offset: 0, Count: uint32(ch(8))}, nil
+		}
+		return &rc.Tclunk{Fid: fid}, unbind
+	}
 	add(3, func() (rc.Message, func(rc.Message)) { return &rc.Tgetattr{Fid: fid, Mask: rc.GetattrAll}, nil })
 	add(2, func() (rc.Message, func(rc.Message)) { return &rc.Tclunk{Fid: fid}, unbind })
+	if o.Xattr {
+		add(2, func() (rc.Message, func(rc.Message)) {
+			j := ch(len(t.fids))
+			nf := t.fid(j)
+			nm := []string{"user.x", "", "user.none"}[ch(3)]
+			return &rc.Txattrwalk{Fid: fid, NewFid: nf, Name: nm}, func(rep rc.Message) {
+				if _, ok := rep.(*rc.Rxattrwalk); ok {
+					t.fids[j] = fidState{bound: true, kind: kindXattr}
+				}
+			}
+		})
+		if !f.opened {
+			add(1, func() (rc.Message, func(rc.Message)) {
+				return &rc.Txattrcreate{Fid: fid, Name: "user.w", AttrSize: uint64(ch(3)), Flags: 0}, func(rep rc.Message) {
+					if _, ok := rep.(*rc.Rxattrcreate); ok {
+						f.kind, f.opened = kindXattrW, true
+					}
+				}
+			})
+		}
+	}
 	add(1, func() (rc.Message, func(rc.Message)) {
 		return &rc.Tsetattr{Fid: fid, Valid: rc.SetattrMode, Mode: uint32(0o600 + ch(64))}, nil
 	})
@@ -264,23 +305,35 @@ func runRandomWorkload(rcx *RunCtx, o workloadOpts) {
 	rcx.Sample = map[string]interface{}{"connections": nconn, "threads": nthreads, "ops_per_thread": nops, "version": ver, "walkgetattr_enosys": wgaENOSYS, "reply_pipe_cap": capS2C, "segmentation": seg, "disjoint": o.Disjoint}
 	var w *World
 	maxActive := 0
+	cutDone := false
 	rcx.Res = simrt.Run(cfg, rcx.Sched, func() {
 		fs := simfs.New()
 		fs.WalkGetAttrENOSYS = wgaENOSYS
 		fs.KeepCalls = false
 		buildWorkloadTree(fs, nthreads, o.Disjoint)
+		if o.Xattr {
+			for _, p := range []string{"/b", "/a", "/a/a", "/d/b"} {
+				if n := fs.Lookup(p); n != nil {
+					n.SetXattrDirect("user.x", []byte("xv"))
+				}
+			}
+		}
 		fs.OnEnter = func(c *simfs.Call) {
 			if n := len(fs.ActiveCalls()); n > maxActive {
 				maxActive = n
 			}
 		}
+		faultsOn := false
 		if faultPct > 0 {
 			fs.FaultFn = func(c *simfs.Call) *simfs.Fault {
+				if !faultsOn {
+					return nil
+				}
 				if c.Method == "Close" || c.Method == "Renamed" || c.Method == "Attach" {
 					return nil
 				}
 				if simrt.Pct(faultPct) {
-					if simrt.Choose(4) == 0 {
+					if !o.ErrOnly && simrt.Choose(4) == 0 {
 						return &simfs.Fault{Panic: "injected backend panic in " + c.Method}
 					}
 					return &simfs.Fault{Err: injectedErrs[simrt.Choose(len(injectedErrs))]}
@@ -326,6 +379,7 @@ func runRandomWorkload(rcx *RunCtx, o workloadOpts) {
 				return
 			}
 		}
+		faultsOn = true
 		for _, th := range threads {
 			th := th
 			if o.UseSolo && th.id != o.Solo {
@@ -354,7 +408,57 @@ func runRandomWorkload(rcx *RunCtx, o workloadOpts) {
 				th.done = true
 			})
 		}
+		if o.Cut {
+			victim := w.Conns[simrt.Choose(len(w.Conns))]
+			after := simrt.Choose(nops*perConn + 1)
+			delta := simrt.Choose(40)
+			deadRx := simrt.Choose(2) == 1
+			nhold := simrt.Choose(3)
+			var parked []*simfs.Call
+			nparked := 0
+			simrt.GoNamed("cutter", func() {
+				simrt.Current().Role = "peer"
+				base := len(victim.Mon.Req.Frames)
+				simrt.Block("cut point", func() bool { return len(victim.Mon.Req.Frames) >= base+after || allDone(threads) })
+				if nhold > 0 {
+					fs.Hold = func(c *simfs.Call) bool {
+						if nparked < nhold && c.Method != "Renamed" {
+							nparked++
+							parked = append(parked, c)
+							return true
+						}
+						return false
+					}
+				}
+				// threads of the victim stop after the request they are waiting for
+				victim.closed = true
+				// one last request, of which only a prefix (possibly empty,
+				// possibly all of it) arrives before the stream ends
+				final := rc.Encode(victim.Tag(), &rc.Twalk{Fid: 0, NewFid: 77, Names: []string{"a", "b"}})
+				victim.Net.C2S.ReadEOFAt = victim.Net.C2S.Written() + int64(delta%(len(final)+1))
+				if deadRx {
+					victim.Net.S2C.CloseRead()
+				}
+				simrt.Fault("transport.cut-planned")
+				victim.SendRaw(final)
+				victim.Net.C2S.CloseWrite()
+				simrt.WaitQuiescent()
+				fs.Hold = nil
+				for len(parked) > 0 {
+					i := simrt.Choose(len(parked))
+					parked[i].Release()
+					parked = append(parked[:i], parked[i+1:]...)
+					simrt.WaitQuiescent()
+				}
+				cutDone = true
+			})
+		} else {
+			cutDone = true
+		}
 		simrt.Block("threads done", func() bool {
+			if !cutDone {
+				return false
+			}
 			for _, th := range threads {
 				if !th.done {
 					return false
@@ -367,6 +471,9 @@ func runRandomWorkload(rcx *RunCtx, o workloadOpts) {
 		}
 		// every request must have been answered
 		for _, c := range w.Conns {
+			if c.closed {
+				continue // cut on purpose
+			}
 			for _, r := range c.Mon.Unanswered() {
 				rcx.Find("C06", "no-reply", rc.TypeName(r.Type), "%s: request %s was never answered", c.Mon.Name, r)
 			}
@@ -391,4 +498,13 @@ func countReqs(w *World) int {
 		n += len(c.Mon.Req.Frames)
 	}
 	return n
+}
+
+func allDone(ths []*thread) bool {
+	for _, th := range ths {
+		if !th.done {
+			return false
+		}
+	}
+	return true
 }
